@@ -7,6 +7,10 @@ others stay in the pool (long arcs); a layer is materialised only if non-empty; 
 guard counts *materialised* layers (`≥ 2`); `is_exact` is cleared inside restrict / relax (no
 `lel`); the cut-set is always the frontier, recorded only if the diagram is not exact; local
 bounds iff the cut-set is non-empty; the terminal nodes are the pool at exit.
+**Repair of D5** (`_drain_cutset`): the diagram records the arcs that leave its root when the root is expanded
+(`PD.rootKids`, `root_edges` in the Rust code); when the frontier contains the root, the children of the root are handed
+out instead of the root (`finalizeP`).  `finalizePOld` / `compilePOld` are the functions before the repair (kept for the
+D5 witnesses).
 Shared with `Mdd`: `Node`, `Arc`, `appendEdge`, `branchOn`, `expandOne`, the filters, the sorts,
 `restrictLayer`, `relaxLayer`, and the bottom-up passes (arcs name their parent by the index of
 its layer in the list of materialised layers). -/
@@ -23,6 +27,8 @@ structure PD (S K : Type) where
   log : List (Call S) := []
   polls : Nat := 0
   ndom : Nat := 0
+  /-- `root_edges`: the arcs that left the root when it was expanded, as `(state of the child, decision, cost)` -/
+  rootKids : List (S × Dec × Int) := []
 
 def PD.plain (pd : PD S K) : List (List (Node S)) := pd.layers.map (·.2)
 
@@ -49,7 +55,13 @@ def prepLayerP (cfg : Cfg S K) (pd : PD S K) (var : Nat) :
     else (layer, cur, log)
   some (layer, cur, store, ndom, isExactField, log)
 
-/-- `_move_to_next_layer` + expansion: the children go into the pool, next to the nodes that were skipped -/
+/-- the inbound arcs of the nodes of a pool, as `(state of the node, decision, cost)` -/
+def kidsOf (pool : List (Node S)) : List (S × Dec × Int) :=
+  pool.flatMap (fun c => c.inb.map (fun a => (c.state, a.dec, a.cost)))
+
+/-- `_move_to_next_layer` + expansion: the children go into the pool, next to the nodes that were skipped.
+    `rootKids` (`root_edges` in the Rust code): as long as no layer has been materialised the pool is `[root]`, so right after
+    the first materialised layer every arc of the pool leaves the root; later arcs from the root are redirected ones. -/
 def stepLayerP (cfg : Cfg S K) (pd : PD S K) (var : Nat) : Option (PD S K) :=
   match prepLayerP cfg pd var with
   | none => none
@@ -58,7 +70,8 @@ def stepLayerP (cfg : Cfg S K) (pd : PD S K) (var : Nat) : Option (PD S K) :=
     let lidx := pd.layers.length
     let r := cur.foldl (expandOne cfg var lidx) (layer, rest, log)
     let layers := if r.1.isEmpty then pd.layers else pd.layers ++ [(pd.depth, r.1)]
-    some { pd with layers := layers, pool := r.2.1, depth := pd.depth + 1, isExactField := isExactField, store := store, log := r.2.2, ndom := ndom }
+    some { pd with layers := layers, pool := r.2.1, depth := pd.depth + 1, isExactField := isExactField, store := store, log := r.2.2, ndom := ndom,
+                   rootKids := if pd.layers.isEmpty then kidsOf r.2.1 else pd.rootKids }
 
 def buildLoopP (cfg : Cfg S K) (stopAt : Option Nat) : Nat → PD S K → PD S K × Outcome
   | 0, pd => (pd, .crash)
@@ -80,7 +93,8 @@ def initPD (cfg : Cfg S K) (cache : Cache S) (store : DomStore S K) (polls : Nat
   { pool := [{ state := cfg.root.state, value := cfg.root.value, depth := cfg.root.depth }],
     depth := cfg.root.depth, cache := cache, store := store, polls := polls }
 
-def finalizeP (cfg : Cfg S K) (pd : PD S K) (hasEBP : Bool) : Result S :=
+/-- `_finalize` + `_drain_cutset` **before the repair of D5** (the root may be handed out by its own cut-set) -/
+def finalizePOld (cfg : Cfg S K) (pd : PD S K) (hasEBP : Bool) : Result S :=
   let relaxed := cfg.ctype == .relaxed
   -- `_finalize_layers`: the pool becomes the last layer (possibly empty), depth := current depth
   let terms := pd.pool.map (fun n => { n with depth := pd.depth })
@@ -119,6 +133,76 @@ def finalizeP (cfg : Cfg S K) (pd : PD S K) (hasEBP : Bool) : Result S :=
     bestSol := bestNode.map pathOf, bestExactSol := bestExactNode.map pathOf,
     cutset := cutset, cacheUpdates := ups, expanded := expanded, polls := pd.polls }
 
+/-- `_finalize` + `_drain_cutset`.  **Repair of D5**: the root of the diagram (the only node of the layer of index `0`) never stands in its own
+    cut-set; when the frontier contains it (long arcs: a child of the root that lingered in the pool was merged, recycled as
+    the merged node, or reached from a relaxed node), its children — the arcs recorded in `rootKids`, with the exact state,
+    value `root.value ⊕ cost`, path `root path ++ [decision]`, depth `root depth + 1` and the bound of the root — are handed
+    out instead. -/
+def finalizeP (cfg : Cfg S K) (pd : PD S K) (hasEBP : Bool) : Result S :=
+  let relaxed := cfg.ctype == .relaxed
+  -- `_finalize_layers`: the pool becomes the last layer (possibly empty), depth := current depth
+  let terms := pd.pool.map (fun n => { n with depth := pd.depth })
+  let layers0 := pd.plain ++ [terms]
+  let termL := layers0.length - 1
+  let bestValue := maxValue terms
+  let bestExactValue := if hasEBP then bestValue else maxValue (terms.filter (·.isExact))
+  let doCut := relaxed || pd.isExactField
+  let (layers1, cs0) := if doCut then computeCutset .frontier 0 layers0 else (layers0, [])
+  let cs := if pd.isExactField then [] else cs0
+  let layers2 := if !cs.isEmpty && relaxed then computeLocalBounds layers1 else layers1
+  let (layers3, ups) := if doCut then computeThresholds .frontier pd.isExactField cfg.lb bestExactValue (some termL) layers2 else (layers2, [])
+  let fuel := layers3.length + 1
+  let pathOf := fun (n : Node S) => cfg.root.path ++ bestPath layers3 fuel n
+  let bestNode := match bestValue with
+    | none => none
+    | some v => (layers3[termL]?.getD []).find? (fun (n : Node S) => decide (n.value = v))
+  let bestExactNode := if hasEBP then bestNode else
+    match bestExactValue with
+    | none => none
+    | some v => (layers3[termL]?.getD []).find? (fun (n : Node S) => n.isExact && decide (n.value = v))
+  let cutset := match bestValue with
+    | none => []
+    | some bv => cs.flatMap (fun (l, p) =>
+        match getNode layers3 l p with
+        | some n => if n.marked then
+            (if l = 0 then
+              pd.rootKids.map (fun (s, d, c) =>
+                ({ state := s, value := satAdd n.value c, path := cfg.root.path ++ [d],
+                   ub := min (min (satAdd n.value n.rub) (satAdd n.value n.vbot)) bv, depth := n.depth + 1 } : SubP S))
+            else
+              [{ state := n.state, value := n.value, path := pathOf n,
+                 ub := min (min (satAdd n.value n.rub) (satAdd n.value n.vbot)) bv, depth := n.depth }])
+          else []
+        | none => [])
+  let expanded := (pd.log.reverse.foldl (fun acc c => match c with
+    | .nextVar _ _ _ => 0 :: acc
+    | .domain _ _ => (match acc with | x :: r => (x + 1) :: r | [] => [1])
+    | _ => acc) ([] : List Nat)).reverse
+  { outcome := .ok, isExact := pd.isExactField || hasEBP, bestValue := bestValue, bestExactValue := bestExactValue,
+    bestSol := bestNode.map pathOf, bestExactSol := bestExactNode.map pathOf,
+    cutset := cutset, cacheUpdates := ups, expanded := expanded, polls := pd.polls }
+
+/-- `Pooled::compile` + the queries, **before the repair of D5** -/
+def compilePOld (cfg : Cfg S K) (cache : Cache S) (store : DomStore S K) (polls : Nat) (stopAt : Option Nat) :
+    Outcome × Result S × Option (Result S) × PD S K :=
+  let (pd, oc) := buildLoopP cfg stopAt (cfg.P.nbVars + 2) (initPD cfg cache store polls)
+  let empty : Result S := { outcome := oc, isExact := false, bestValue := none, bestExactValue := none, bestSol := none,
+                            bestExactSol := none, cutset := [], cacheUpdates := [], expanded := [], polls := pd.polls }
+  match oc with
+  | .ok =>
+    let relaxed := cfg.ctype == .relaxed
+    let terms := pd.pool.map (fun n => { n with depth := pd.depth })
+    let layers0 := pd.plain ++ [terms]
+    let bestTerms := match maxValue terms with
+      | none => []
+      | some v => terms.filter (fun (n : Node S) => decide (n.value = v))
+    let must := relaxed && bestTerms.all (ebpAll layers0 layers0.length)
+    let may := relaxed && (bestTerms.isEmpty || bestTerms.any (ebpSome layers0 layers0.length))
+    let r1 := finalizePOld cfg pd must
+    (oc, r1, if may != must then some (finalizePOld cfg pd may) else none, pd)
+  | _ => (oc, empty, none, pd)
+
+/-- `Pooled::compile` + the queries (repaired code) -/
 def compileP (cfg : Cfg S K) (cache : Cache S) (store : DomStore S K) (polls : Nat) (stopAt : Option Nat) :
     Outcome × Result S × Option (Result S) × PD S K :=
   let (pd, oc) := buildLoopP cfg stopAt (cfg.P.nbVars + 2) (initPD cfg cache store polls)
